@@ -435,6 +435,42 @@ pub fn run(s: &Session) {
     }
     s.foreach("corpus-both-flags", plain, true, check);
     s.forall("variants", s.pick(150_000, 3_000_000), move || variant_strategy(full), check);
+    // the same effects for transactions reached through a block, where the flag comes from the block's list of invalid
+    // indices (any order, repeats, dangling indices): assembled blocks of the Alonzo family and later
+    s.forall("through-blocks", s.pick(15_000, 300_000), crate::c30::synth_strategy, |c, obs| {
+        let crate::c30::Case::Synth(sy) = c else {
+            obs.discard();
+            return Ok(());
+        };
+        if sy.tag < 5 || !sy.forms.is_empty() || sy.txs.is_empty() {
+            obs.discard();
+            return Ok(());
+        }
+        let Some(bytes) = crate::c30::assemble(sy) else {
+            obs.discard();
+            return Ok(());
+        };
+        let Ok(block) = pallas_traverse::MultiEraBlock::decode(&bytes) else {
+            obs.discard();
+            return Ok(());
+        };
+        let Ok(tree) = cborx::read(&bytes) else { pv_fail!("harness:cborx-reread", "assembled block does not re-read") };
+        let view = match layout::block_view(&tree) {
+            Ok(v) => v,
+            Err(e) => pv_fail!("layout-error", "assembled block: {e}"),
+        };
+        let txs = block.txs();
+        pv_ensure!(txs.len() == view.txs.len(), "c31-block-tx-count", "txs() yields {} transactions, the block has {}", txs.len(), view.txs.len());
+        let mut some_invalid = false;
+        for (tx, tv) in txs.iter().zip(&view.txs) {
+            some_invalid |= !tv.valid;
+            check_tx(tx, tv, obs)?;
+        }
+        let sorted = view.invalid.windows(2).all(|w| w[0] < w[1]);
+        obs.class(format!("through-block:invalid-list:{}", if view.invalid.is_empty() { "empty" } else if sorted { "ascending" } else { "unordered-or-repeating" }));
+        obs.nontrivial_if(some_invalid);
+        Ok(())
+    });
     for c in ["valid", "invalid", "duplicate-inputs", "invalid:with-collateral-return", "invalid:no-collateral-return",
         "invalid:with-collateral", "invalid:no-collateral", "invalid:duplicate-collateral",
         "era:byron", "era:shelley", "era:allegra", "era:mary", "era:alonzo", "era:babbage", "era:conway"] {
